@@ -4,7 +4,8 @@ CONSTANTS MaxPairs
 K(t, s) == [t |-> t, s |-> s]
 MapKeys == <<K("int", "1"), K("int", "2"), K("str", "\"1\""), K("str", "\"a\""), K("float", "1.0"), K("nil", "nil"), K("bool", "true"),
              K("bool", "false"), K("arr", "[1]"), K("arr", "[]"), K("obj", "{a: 1}"), K("str", "\"b\""),
-             K("float", "1.0000001"), K("float", "1.0000002")>>     \* distinct keys that print alike
+             K("float", "1.0000001"), K("float", "1.0000002"),
+             K("arr", "B1"), K("range", "(1:2)"), K("range", "R1")>>     \* distinct keys that print alike
 ObjNames == <<"a", "b", "_p", "a!", "_p!">>
 (* operands available for ** (values 100.. so that their origin is visible) *)
 M1 == <<[k |-> K("int", "1"), v |-> 100], [k |-> K("str", "\"a\""), v |-> 101], [k |-> K("arr", "[1]"), v |-> 102], [k |-> K("str", "\"c\""), v |-> 103]>>
